@@ -115,7 +115,8 @@ pub fn hash_text(vi: usize, bin: &[u8], with_prefix: bool) -> Vec<u8> {
 
 pub fn stream_parse(out: &mut impl Write, seed: u64, budget: usize) {
     let mut rng = Rng::new(seed, 10);
-    let interesting: [u8; 40] = [
+    let interesting: [u8; 44] = [
+        b'+', b'-', b'.', b',',
         0, 1, b'/', b'0', b'1', b'9', b':', b'@', b'A', b'B', b'F', b'G', b'T', b'Z', b'[', b'`', b'a', b'f', b'g',
         b't', b'z', b'{', 0x7f, 0x80, 0xb0, 0xc1, 0xe9, 0xff, b' ', b'-', b'_', b'x', b'X', b'O', b'o', b'l', b'I',
         0x10, 0x30 + 0x80, 0x41 + 0x80,
@@ -226,7 +227,7 @@ pub fn stream_parse_sweep(out: &mut impl Write, seed: u64, step: usize) {
                 }
                 // two positions at once: the aligned digit pair containing p, over a grid of
                 // interesting byte values (both invalid, one invalid, case mixes)
-                let grid: [u8; 12] = [b'0', b'9', b'A', b'f', b'g', b'G', b'@', b'/', b':', 0x00, 0x80, 0xff];
+                let grid: [u8; 14] = [b'0', b'9', b'A', b'f', b'g', b'G', b'@', b'/', b':', 0x00, 0x80, 0xff, b'+', b'-'];
                 let off = if with_prefix { 2 } else { 0 };
                 if p >= off {
                     let q = off + ((p - off) & !1);
